@@ -440,61 +440,75 @@ namespace
       return handle_encoding_data (attr, encoding);
   }
 
+  // For attributes whose value is an unsigned number that should be shown in
+  // a particular domain whatever its form is, return that domain.
+  constant_dom const *
+  attribute_specific_dom (int code)
+  {
+    switch (code)
+      {
+      case DW_AT_language:
+	return &dw_lang_dom ();
+
+      case DW_AT_inline:
+	return &dw_inline_dom ();
+
+      case DW_AT_encoding:
+	return &dw_encoding_dom ();
+
+      case DW_AT_accessibility:
+	return &dw_access_dom ();
+
+      case DW_AT_visibility:
+	return &dw_visibility_dom ();
+
+      case DW_AT_virtuality:
+	return &dw_virtuality_dom ();
+
+      case DW_AT_identifier_case:
+	return &dw_identifier_case_dom ();
+
+      case DW_AT_calling_convention:
+	return &dw_calling_convention_dom ();
+
+      case DW_AT_ordering:
+	return &dw_ordering_dom ();
+
+      case DW_AT_decimal_sign:
+	return &dw_decimal_sign_dom ();
+
+      case DW_AT_address_class:
+	return &dw_address_class_dom ();
+
+      case DW_AT_endianity:
+	return &dw_endianity_dom ();
+
+      case DW_AT_defaulted:
+	return &dw_defaulted_dom ();
+
+      case DW_AT_decl_line:
+      case DW_AT_call_line:
+	return &line_number_dom;
+
+      case DW_AT_decl_column:
+      case DW_AT_call_column:
+	return &column_number_dom;
+      }
+
+    return nullptr;
+  }
+
   std::unique_ptr <value_producer <value>>
   handle_at_dependent_value (Dwarf_Attribute attr, value_die const &vd,
 			     std::shared_ptr <dwfl_context> dwctx)
   {
     Dwarf_Die die = vd.get_die ();
     int code = dwarf_whatattr (&attr);
+    if (auto dom = attribute_specific_dom (code))
+      return atval_unsigned_with_domain (attr, *dom);
+
     switch (code)
       {
-      case DW_AT_language:
-	return atval_unsigned_with_domain (attr, dw_lang_dom ());
-
-      case DW_AT_inline:
-	return atval_unsigned_with_domain (attr, dw_inline_dom ());
-
-      case DW_AT_encoding:
-	return atval_unsigned_with_domain (attr, dw_encoding_dom ());
-
-      case DW_AT_accessibility:
-	return atval_unsigned_with_domain (attr, dw_access_dom ());
-
-      case DW_AT_visibility:
-	return atval_unsigned_with_domain (attr, dw_visibility_dom ());
-
-      case DW_AT_virtuality:
-	return atval_unsigned_with_domain (attr, dw_virtuality_dom ());
-
-      case DW_AT_identifier_case:
-	return atval_unsigned_with_domain (attr, dw_identifier_case_dom ());
-
-      case DW_AT_calling_convention:
-	return atval_unsigned_with_domain (attr, dw_calling_convention_dom ());
-
-      case DW_AT_ordering:
-	return atval_unsigned_with_domain (attr, dw_ordering_dom ());
-
-      case DW_AT_decimal_sign:
-	return atval_unsigned_with_domain (attr, dw_decimal_sign_dom ());
-
-      case DW_AT_address_class:
-	return atval_unsigned_with_domain (attr, dw_address_class_dom ());
-
-      case DW_AT_endianity:
-	return atval_unsigned_with_domain (attr, dw_endianity_dom ());
-
-      case DW_AT_defaulted:
-	return atval_unsigned_with_domain (attr, dw_defaulted_dom ());
-
-      case DW_AT_decl_line:
-      case DW_AT_call_line:
-	return atval_unsigned_with_domain (attr, line_number_dom);
-
-      case DW_AT_decl_column:
-      case DW_AT_call_column:
-	return atval_unsigned_with_domain (attr, column_number_dom);
-
       case DW_AT_decl_file:
       case DW_AT_call_file:
 	{
@@ -837,9 +851,14 @@ at_value (std::shared_ptr <dwfl_context> dwctx,
       }
 
     case DW_FORM_sdata:
+      // Enumerated attributes are named constants in any constant form.
+      if (auto dom = attribute_specific_dom (dwarf_whatattr (&attr)))
+	return atval_unsigned_with_domain (attr, *dom);
       return atval_signed (attr);
 
     case DW_FORM_udata:
+      if (auto dom = attribute_specific_dom (dwarf_whatattr (&attr)))
+	return atval_unsigned_with_domain (attr, *dom);
       return atval_unsigned (attr);
 
     case DW_FORM_addr:
